@@ -257,6 +257,8 @@ class Analyzer:
         self.known_funcs: Optional[Set[str]] = load_known_funcs()
         self.inlined_calls: List[Tuple[str, str, int]] = []
         self.spliced_at: Dict[int, FuncInfo] = {}  # id(call expression) -> helper spliced there
+        self.partial_syn: Dict[tuple, ast.Call] = {}  # id(call of a partial object) -> the equivalent direct call F(frozen args + own args)
+        self.partial_frame: Dict[tuple, tuple] = {}  # ... and the frame (function, env) in which the partial was built
         self.await_syn: Dict[int, ast.Await] = {}
         self.awaited_via: Dict[int, ast.Call] = {}  # id(await expression) -> the call whose result it awaits through a local
         self.threaded: Set[int] = set()  # id(call expression) of spliced boolean helpers whose returns continue directly at the caller's branches
@@ -1054,6 +1056,43 @@ class Builder:
             return None
         return (not res) if neg else res
 
+    def _partial_callee(self, call: ast.Call) -> Optional[Callee]:
+        """`f()` where f is (a parameter of a spliced helper bound to) a local bound once to `functools.partial(F, ...)`:
+        the callee is F (the call runs F with the frozen arguments)"""
+        e: ast.AST = call.func
+        f, sc, env = self.f, self.sc, self.env
+        for _ in range(8):
+            if isinstance(e, ast.Call) and sc.callee(e).name.rpartition(".")[2] == "partial" and e.args:
+                key = (id(call), id(self.env))  # one stand-in per call site and frame instance
+                syn = self.an.partial_syn.get(key)
+                if syn is None:
+                    syn = ast.copy_location(ast.Call(func=e.args[0], args=list(e.args[1:]) + list(call.args), keywords=list(e.keywords) + list(call.keywords)), call)
+                    self.an.partial_syn[key] = syn
+                    self.an.partial_frame[key] = (f, env)
+                return sc.callee(syn)
+            if not isinstance(e, ast.Name):
+                return None
+            if e.id in sc.params and not sc.defs.get(e.id):
+                if not env or e.id not in env:
+                    return None
+                f, e, env = env[e.id]
+                sc = self.an.scope(f)
+                e = strip_cast(e)
+                continue
+            hows = sc.defs.get(e.id, [])
+            if len(hows) != 1 or hows[0][0] not in ("assign", "ann"):
+                return None
+            e = strip_cast(hows[0][1] if hows[0][0] == "assign" else hows[0][2])
+            if isinstance(e, ast.Call) and sc.callee(e).name.rpartition(".")[2] == "partial" and e.args:
+                key = (id(call), id(self.env))  # one stand-in per call site and frame instance
+                syn = self.an.partial_syn.get(key)
+                if syn is None:
+                    syn = ast.copy_location(ast.Call(func=e.args[0], args=list(e.args[1:]) + list(call.args), keywords=list(e.keywords) + list(call.keywords)), call)
+                    self.an.partial_syn[key] = syn
+                    self.an.partial_frame[key] = (f, env)
+                return sc.callee(syn)
+        return None
+
     def _assumed_callee(self, call: ast.Call) -> Optional[Callee]:
         """`x(...)` where the statements being built know x to be `self.m` (returned by a spliced helper): the callee is that method"""
         if isinstance(call.func, ast.Name) and (self.f.qual, call.func.id) in self.assume:
@@ -1089,7 +1128,7 @@ class Builder:
             e = it.node
             if isinstance(e, ast.Call):
                 n = self.mk("call", e, stmt)
-                n.callee = self._assumed_callee(e) or self.sc.callee(e)
+                n.callee = self._assumed_callee(e) or self._partial_callee(e) or self.sc.callee(e)
                 t = self._inline_target(n.callee, False)
                 if t is not None:
                     n.cond, n.comp = it.cond, in_comp
